@@ -25,16 +25,22 @@ MANIFEST = {
     "text": "Lean theorems over the model of the signer (signing_solver: reuse of existing signatures, max_sigs, reverse key order, low-S, DER + hash type, "
             "placeholder padding, ordering; the scriptSig/witness written for P2PK, P2PKH, bare/P2SH/P2WSH/P2SH-P2WSH multisig, P2WPKH, P2SH-P2WPKH; "
             "Solver.sign's frame: input subset, skipping valid inputs, fork-id forcing; Keychain lookups): emitted signatures are strict DER, low-S and carry "
-            "the requested hash type; the consensus specification accepts the model's solutions under the full standard flag set given ECDSA-verify of the right "
-            "digest; partial multisig signing is order independent; nothing but the script and witness of the chosen inputs changes. The symbolic-execution "
+            "the requested hash type; the consensus specification accepts the model's solutions under the full standard flag set with CheckSig = ECDSA-verify "
+            "(C01) of the C04 digest — single-key templates and m-of-n multisig for every 1 <= m <= n <= 20 in all four wrappings (counts 17..20 as the "
+            "one-byte pushes 01 11..01 14 pycoin emits and MINIMALDATA requires; redeem scripts pushed direct / PUSHDATA1 / PUSHDATA2; under P2SH the 520-byte "
+            "limit admits exactly n <= 15 compressed or n <= 7 uncompressed keys); any sequence of signing passes on the model leaves min(m, distinct listed "
+            "keys supplied) signatures and placeholders otherwise, is accepted exactly when m distinct listed keys were supplied, whatever the order of the "
+            "passes, and a wrong secret leaves the input rejected; nothing but the script and witness of the chosen inputs changes. The symbolic-execution "
             "machinery of the solver is tied to the model by byte-for-byte equality of what tx.sign writes (RFC 6979 makes signatures deterministic).",
     "note": "The signature hash is computed inside the model by C04's Model/Sighash.lean (the digests pycoin computes are sent along and cross-checked); DER and SEC "
             "encodings are C10's models. Supplied by the harness from pycoin: whether an input already validates under the default flags (C03). ECDSA "
-            "unforgeability (the placeholder signature does not verify) is an explicit hypothesis.",
+            "unforgeability appears as explicit hypotheses of the _partial theorems: the placeholder signature verifies for no key; a signature made for one "
+            "listed key (or with a wrong secret) does not verify for another listed key. Legacy end-to-end theorems carry the side condition that "
+            "FindAndDelete of the pushed signatures leaves the script code unchanged (signatures do not occur inside the puzzle script).",
     "technique": "Lean 4 proof over an executable model + differential correspondence model vs implementation (exact bytes) + validation oracles on the implementation",
 }
 RULE = ("ops c05_sign_tx (one or several signing passes over a transaction mixing the standard templates), c05_sign_solver, c05_der, c05_lax, c05_sec, "
-        "c05_keychain; boundary corpus (every template x key form x hash type x coin, subsets incl. the empty one, m-of-n at the size limits) + seeded random; "
+        "c05_keychain, c05_who_signed (public_pairs_signed on the transactions the signing ops leave); boundary corpus (every template x key form x hash type x coin, subsets incl. the empty one, m-of-n at the size limits) + seeded random; "
         "distinct = distinct op line; trivial = ops that sign nothing")
 ASSUMPTIONS = ["the signature hash is C04's model (Model/Sighash.lean); the driver answers DigestMismatch when it differs from what pycoin computed",
                "whether an input is already valid under the default flags is taken from pycoin's validator (tied to consensus by C03)",
@@ -101,11 +107,16 @@ def parse_hexlist(s):
 
 
 def parse_passes(s):
+    """pass := idxs ":" valid [":" hash_type]   (a per-pass hash type overrides the op's)"""
     res = []
     for p in s.split("|"):
-        idxs, valid = p.split(":")
+        idxs, valid = p.split(":")[:2]
         res.append(([] if idxs == "~" else [int(x) for x in idxs.split(",")], valid))
     return res
+
+
+def parse_pass_hts(s):
+    return [(int(p.split(":")[2]) if p.count(":") >= 2 else None) for p in s.split("|")]
 
 
 def parse_subset(s):
@@ -261,6 +272,7 @@ class SignOp:
         self.subset = parse_subset(subset)
         self.entries = parse_entries(self.keys_s)
         self.passes = parse_passes(self.passes_s)
+        self.pass_ht = parse_pass_hts(self.passes_s)
         self.scripts = parse_hexlist(self.p2sh_s)
         self.net = NET(self.coin)
 
@@ -290,6 +302,12 @@ def run_passes(o: SignOp, observe=None):
         keychain.add_p2s_scripts(o.scripts)
     for k, (idxs, _valid) in enumerate(o.passes):
         before = fields_of(tx)
+        if o.pass_ht[k] is not None:
+            kw["hash_type"] = o.pass_ht[k]
+        elif o.ht is not None:
+            kw["hash_type"] = o.ht
+        else:
+            kw.pop("hash_type", None)
         if o.mech == "dict":
             lookup = lookup_of([o.entries[i] for i in idxs])
             tx.sign(lookup, p2sh_lookup=build_p2sh_lookup(o.scripts), **kw)
@@ -354,6 +372,14 @@ def impl(op: str) -> str:
             return "ok " + dump_tx(tx)
         if k == "c05_keychain":
             return _keychain(a[1])
+        if k == "c05_who_signed":
+            tx = build(a[1], a[2], a[3])
+            ws = NET(a[1]).who_signed
+            out = []
+            for i in range(len(tx.txs_in)):
+                r = ws.public_pairs_signed(tx, i)
+                out.append(";".join("%d.%d.%d" % (pp[0], pp[1], t) for pp, _sig, t in r) or "~")
+            return "ok " + ("|".join(out) or "-")
         if k == "c05_fastcheck":
             # the driver evaluates the model with a fast secp256k1 instance; this op ties that instance and the C01 model instance to pycoin
             d, z = int(a[1]), int(a[2])
@@ -469,8 +495,8 @@ def listed_keys(info):
 def oracle_sign_tx(op):
     o = SignOp(op)
     fork = is_fork(o.coin)
-    want_ht = eff_ht(o.coin, o.ht)
-    if want_ht > 255:
+    want_hts = [eff_ht(o.coin, h if h is not None else o.ht) for h in o.pass_ht]
+    if any(w > 255 for w in want_hts):
         return None
     good = [entry_good(e) for e in o.entries]
     tx0 = build(o.coin, o.tx_s, o.us_s)
@@ -486,6 +512,11 @@ def oracle_sign_tx(op):
     problems = []
     flags = std_flags(o.coin)
     prev_valid = [tx0.is_solution_ok(i) for i in range(n_in)]
+    fresh_in = [not t.script and not t.witness for t in tx0.txs_in]
+    pair_of = {}
+    for e, g in zip(o.entries, good):
+        if g:
+            pair_of[e[0]] = (e[2], e[3])
     initial_items = [set(sig_items(t, infos[i])) if infos[i] else set() for i, t in enumerate(fields_of(tx0)[2])]
 
     def observe(k, before, tx):
@@ -519,6 +550,19 @@ def oracle_sign_tx(op):
                 problems.append("pass %d: input %d has its %d key(s) but does not validate under the standard flags" % (k, i, m))
             if not expect and (ok_default or ok_std):
                 problems.append("pass %d: input %d reported valid with %d of %d signatures" % (k, i, len(signed[i]), m))
+            # who_signed: on an input that started unsigned, the signers reported are exactly the keys that signed
+            if fresh_in[i]:
+                try:
+                    got = sorted((pp[0], pp[1]) for pp, _sg, _t in o.net.who_signed.public_pairs_signed(tx, i))
+                    n_addr = len(o.net.who_signed.who_signed_tx(tx, i))
+                except Exception as e:  # noqa: BLE001
+                    problems.append("pass %d: who_signed raised %s on input %d" % (k, type(e).__name__, i))
+                    got, n_addr = None, None
+                if got is not None:
+                    exp = sorted(pair_of[key if info["base"][0] == "p2pkh" else hash160(key)] for key in signed[i])
+                    if got != exp or n_addr != len(exp):
+                        problems.append("pass %d: who_signed reports %d signer(s) for input %d, %d of its keys have signed%s"
+                                        % (k, len(got), i, len(exp), " (fork-id coin)" if fork else ""))
             # every signature present: canonical; new ones carry the requested hash type
             old = set(sig_items(b, info)) | initial_items[i]
             for s in sig_items(a, info):
@@ -528,9 +572,19 @@ def oracle_sign_tx(op):
                     why = strict_der_problem(s[:-1] + b"\x01") if s else "empty"
                     if why:
                         problems.append("pass %d: input %d carries a signature that is not strict DER / low S (%s)" % (k, i, why))
-                    if s[-1] != want_ht:
+                    # the signature commits to the digest a FRESH checker computes for its hash type (a checker that keeps state
+                    # between digests signs, and later validates, something else: validation alone cannot see it)
+                    try:
+                        z_fresh = digest_for(tx, i, s[-1], info)
+                        rs = der.sigdecode_der(s[:-1])
+                        if z_fresh is not None and not any(G.verify(pp, z_fresh, rs) for pp in {(e[2], e[3]) for e in o.entries}):
+                            problems.append("pass %d: the new signature of input %d (hash type 0x%02x) verifies for none of the supplied keys "
+                                            "under the signature hash a fresh checker computes" % (k, i, s[-1]))
+                    except Exception:  # noqa: BLE001  (not DER: reported above)
+                        pass
+                    if s[-1] != want_hts[k]:
                         problems.append("pass %d: input %d signed with hash type 0x%02x, 0x%02x requested%s"
-                                        % (k, i, s[-1], want_ht, " (fork-id coin)" if fork else ""))
+                                        % (k, i, s[-1], want_hts[k], " (fork-id coin)" if fork else ""))
             prev_valid[i] = ok_default
     try:
         run_passes(o, observe)
@@ -740,7 +794,11 @@ class Scenario:
         return "|".join("%d:%s" % (v, hx(p)) for p, v, *_ in self.ins)
 
 
-def op_sign_tx(coin, mech, fields, us_text, scripts, ht, subset, entries, pass_idxs):
+def _pht(pass_hts, j):
+    return ":%d" % pass_hts[j] if pass_hts and pass_hts[j] is not None else ""
+
+
+def op_sign_tx(coin, mech, fields, us_text, scripts, ht, subset, entries, pass_idxs, pass_hts=None):
     """assemble the op line: runs the passes on the implementation to learn the parameters of the model
     (validity before each pass, digests)"""
     tx_s = show_fields(fields, compact=False)
@@ -750,7 +808,7 @@ def op_sign_tx(coin, mech, fields, us_text, scripts, ht, subset, entries, pass_i
     sub_s = "all" if subset is None else show_list(subset)
     # first run with dummy validity to observe validity before each pass
     proto = " ".join(["c05_sign_tx", coin, mech, tx_s, us_text, p2sh_s, ht_s, sub_s, keys_s,
-                      "|".join("%s:-" % show_list(p) for p in pass_idxs), "~"])
+                      "|".join("%s:-%s" % (show_list(p), _pht(pass_hts, j)) for j, p in enumerate(pass_idxs)), "~"])
     o = SignOp(proto)
     valids = []
     tx0 = build(coin, tx_s, us_text)
@@ -771,12 +829,14 @@ def op_sign_tx(coin, mech, fields, us_text, scripts, ht, subset, entries, pass_i
     while len(valids) < len(pass_idxs):
         valids.append(valids[-1])
     e_ht = eff_ht(coin, ht)
-    dig = "~" if tx0.missing_unspents() else digests_text(tx0, scripts, [e_ht, 1] if e_ht <= 0xffffffff else [1])
-    passes_s = "|".join("%s:%s" % (show_list(p), v) for p, v in zip(pass_idxs, valids))
+    hts = [e_ht, 1] if e_ht <= 0xffffffff else [1]
+    hts += [eff_ht(coin, h) for h in (pass_hts or []) if h is not None and eff_ht(coin, h) <= 0xffffffff]
+    dig = "~" if tx0.missing_unspents() else digests_text(tx0, scripts, hts)
+    passes_s = "|".join("%s:%s%s" % (show_list(p), v, _pht(pass_hts, j)) for j, (p, v) in enumerate(zip(pass_idxs, valids)))
     return " ".join(["c05_sign_tx", coin, mech, tx_s, us_text, p2sh_s, ht_s, sub_s, keys_s, passes_s, dig])
 
 
-def scenario_op(ctx, sc: Scenario, mech="dict", ht=None, subset=None, passes=None, wrong=None, fields=None):
+def scenario_op(ctx, sc: Scenario, mech="dict", ht=None, subset=None, passes=None, wrong=None, fields=None, pass_hts=None):
     """entries = both forms of every secret of the scenario; passes = list of lists of secrets (None = one pass with all)"""
     secrets = []
     for _p, _v, ds, _m, _k, _c in sc.ins:
@@ -808,7 +868,7 @@ def scenario_op(ctx, sc: Scenario, mech="dict", ht=None, subset=None, passes=Non
             cum = sorted(set(cum) | set(idxs))
             idxs = list(cum)
         pass_idxs.append(idxs)
-    return op_sign_tx(sc.coin, mech, fields or sc.fields(), sc.unspents_text(), sc.scripts, ht, subset, entries, pass_idxs)
+    return op_sign_tx(sc.coin, mech, fields or sc.fields(), sc.unspents_text(), sc.scripts, ht, subset, entries, pass_idxs, pass_hts)
 
 
 def kc_scenario_op(ctx, coin, kinds, ht=None, n_passes=None):
@@ -971,6 +1031,13 @@ def gen_keychain(ctx, emit, n):
 def gen(ctx, emit):
     rng = ctx.rng
     pool = KeyPool(rng)
+    sign_ops = []
+    emit_all = emit
+
+    def emit(op):  # noqa: F811  (every c05_sign_tx op is remembered: who_signed is asked about a sample of their results)
+        emit_all(op)
+        if op.startswith("c05_sign_tx "):
+            sign_ops.append(op)
 
     def fresh(n):
         return [rng.randrange(1, N_ORDER) for _ in range(n)]
@@ -1032,12 +1099,18 @@ def gen(ctx, emit):
         if kind.endswith("ms"):
             emit(scenario_op(ctx, sc, "dict", passes=[[ds[1]]]))
     # m-of-n across the atom-numbering boundary (x_9 / x_10) and at the size limits
-    big = [("ms", 10, 10), ("p2sh-ms", 9, 9), ("p2wsh-ms", 9, 10), ("ms", 11, 12), ("p2sh-ms", 15, 15), ("p2wsh-ms", 20, 20)]
+    # (counts above 16 are written as one-byte pushes 01 11 .. 01 14; under P2SH 15 compressed / 7 uncompressed keys fill the 520 bytes)
+    big = [("ms", 10, 10), ("p2sh-ms", 9, 9), ("p2wsh-ms", 9, 10), ("ms", 11, 12), ("p2sh-ms", 15, 15), ("p2wsh-ms", 20, 20),
+           ("ms", 17, 17), ("p2sh-p2wsh-ms", 16, 17), ("p2sh-ms-u", 7, 7)]
     if ctx.thorough:
-        big += [("ms", 20, 20), ("p2sh-p2wsh-ms", 16, 20), ("p2sh-ms", 1, 15), ("p2wsh-ms", 1, 20), ("ms", 16, 17), ("p2wsh-ms", 17, 17)]
+        big += [("ms", 20, 20), ("p2sh-p2wsh-ms", 16, 20), ("p2sh-ms", 1, 15), ("p2wsh-ms", 1, 20), ("ms", 16, 17), ("p2wsh-ms", 17, 17),
+                ("ms", 1, 18), ("p2sh-p2wsh-ms", 20, 20), ("p2wsh-ms", 18, 19), ("p2sh-ms-u", 1, 7), ("ms-u", 20, 20)]
     for kind, m, n in big:
         sc = Scenario(ctx, rng.choice(["btc", "bch"]), pool)
-        sc.add(kind, fresh(n), m)
+        if kind.endswith("-u"):
+            sc.add(kind[:-2], fresh(n), m, compressed=False)
+        else:
+            sc.add(kind, fresh(n), m)
         emit(scenario_op(ctx, sc, "dict"))
 
     # --- multisig one key at a time, every order for n <= 4 (sampled in quick), sampled beyond
@@ -1054,6 +1127,31 @@ def gen(ctx, emit):
                 ds = fresh(n)
                 sc.add(kind, ds, m, compressed=(kind not in ("ms", "p2sh-ms")) or rng.random() < 0.6)
                 emit(scenario_op(ctx, sc, rng.choice(["dict", "wif"]), ht=rng.choice([None] + HASH_TYPES), passes=[[ds[j]] for j in perm]))
+    # --- cosigners using DIFFERENT hash types on a transaction with several inputs: in its pass the second cosigner's checker
+    # first verifies the existing NONE/SINGLE signature and then makes an ALL one (whatever a digest computation leaves behind
+    # in the checker must not leak into the next digest), while other inputs carry non-zero sequences
+    for _ in range(ctx.n(12, 200)):
+        kind = rng.choice(["ms", "p2sh-ms", "ms", "p2wsh-ms", "p2sh-p2wsh-ms"])
+        n = rng.choice([2, 2, 3])
+        m = rng.randint(2, n)
+        sc = Scenario(ctx, rng.choice(COINS_MAIN), pool)
+        ds = fresh(n)
+        other = fresh(2)
+        adds = [lambda: sc.add(kind, ds, m, compressed=True), lambda: sc.add(rng.choice(["p2pkh", "p2pk", "p2wpkh"]), [other[0]])]
+        if rng.random() < 0.5:
+            adds.append(lambda: sc.add("p2pkh", [other[1]]))
+        else:
+            other = other[:1]
+        rng.shuffle(adds)
+        for f in adds:
+            f()
+        order = ds[:]
+        rng.shuffle(order)
+        passes = [[d] for d in order[:m]]
+        passes[-1] = passes[-1] + other
+        hts = [rng.choice([2, 3, 0x82, 0x83, 0x81]) for _ in passes]
+        hts[-1] = rng.choice([1, 1, 0x81])
+        emit(scenario_op(ctx, sc, "dict", passes=passes, pass_hts=hts))
     for _ in range(ctx.n(2, 60)):
         n = rng.randint(5, 12)
         m = rng.randint(2, n)
@@ -1098,3 +1196,10 @@ def gen(ctx, emit):
             k = rng.randint(1, 3)
             passes = [sh[i::k] for i in range(k)]
         emit(scenario_op(ctx, sc, rng.choice(["dict", "dict", "wif"]), ht=ht, subset=subset, passes=passes))
+
+    # --- who_signed on the transactions the signing ops leave (unsigned, partially signed with placeholders, complete)
+    for op in rng.sample(sign_ops, min(len(sign_ops), ctx.n(70, 900))):
+        out = impl(op)
+        if out.startswith("ok "):
+            a = op.split(" ")
+            emit_all("c05_who_signed %s %s %s" % (a[1], out[3:], a[4]))
